@@ -343,17 +343,19 @@ func (n *Namespace) verifyShardRules() error {
 			}
 		}
 
+		// the router keys its rules by the lower-case table name, so must the duplicate check
+		table := strings.ToLower(s.Table)
 		//if the database exist in rules
 		if _, ok := rules[s.DB]; ok {
-			if _, ok := rules[s.DB][s.Table]; ok {
+			if _, ok := rules[s.DB][table]; ok {
 				return fmt.Errorf("table %s rule in %s duplicate", s.Table, s.DB)
 			} else {
-				rules[s.DB][s.Table] = s.Type
+				rules[s.DB][table] = s.Type
 			}
 		} else {
 			m := make(map[string]string)
 			rules[s.DB] = m
-			rules[s.DB][s.Table] = s.Type
+			rules[s.DB][table] = s.Type
 		}
 	}
 
@@ -362,7 +364,7 @@ func (n *Namespace) verifyShardRules() error {
 		if !ok {
 			return fmt.Errorf("db of LinkedRule is not found in parent rules")
 		}
-		dbRuleType, ok := tableRules[s.ParentTable]
+		dbRuleType, ok := tableRules[strings.ToLower(s.ParentTable)]
 		if !ok {
 			return fmt.Errorf("parent table of LinkedRule is not found in parent rules")
 		}
